@@ -328,6 +328,7 @@ impl Check for C19 {
     fn assumptions(&self) -> Vec<&'static str> {
         vec![
             "10 virtual s bound for contacting listed peers after the first good reply and for answering a dial-in handshake",
+            "'the client stopped announcing' = no announce in flight and none for longer than max(12 s, 3 x the longest pause the client itself made after a failed announce); the retry delay is not fixed by the statement",
             "the 'any reply body parses without panic' half is sampled only through this generator",
             "the number of peers dialled is not fixed by the statement (the client only fills free connection slots, and how many it has is its own business): of k distinct listed peers min(k, 5) must be dialled when the client is interested in no connection at the reply, min(k, 2) when in 1-3, none otherwise",
         ]
@@ -433,9 +434,24 @@ impl Check for C19 {
             }
             None => {
                 // the good reply never reached the client although the script offers one
+                // "stopped" is judged against the client's own retry rhythm, not against a fixed
+                // delay: no request in flight, and silence towards the tracker for more than three
+                // times the longest pause it ever made after a failure (at least 12 s)
                 let has_good = plan.tracker.steps.iter().any(|(_, s)| matches!(s, TrackerStep::Good { .. }));
-                let budget: u64 = plan.tracker.steps.iter().map(|(l, _)| *l + 1000).sum::<u64>() + 10_000;
-                if has_good && v.out.end_ms >= budget {
+                let mut ann: Vec<u64> = Vec::new();
+                let mut rep: Vec<u64> = Vec::new();
+                for e in &v.out.entries {
+                    match &e.ev {
+                        Ev::Announce { .. } => ann.push(e.t_ms),
+                        Ev::TrackerReply { .. } => rep.push(e.t_ms),
+                        _ => {}
+                    }
+                }
+                let in_flight = ann.len() > rep.len();
+                let longest_pause = rep.iter().zip(ann.iter().skip(1)).map(|(r, a)| a.saturating_sub(*r)).max().unwrap_or(0);
+                let quiet_since = rep.last().cloned().unwrap_or(0);
+                let stopped = !in_flight && v.out.end_ms.saturating_sub(quiet_since) > (3 * longest_pause).max(12_000);
+                if has_good && stopped {
                     vd.fail(
                         "C19",
                         "C19.never-reaches-good-reply",
